@@ -346,6 +346,7 @@ func init() {
 			addRow(row, L, "pairs")
 		}
 		scns = append(scns, c07Async(tier)...)
+		scns = append(scns, c07Concurrent(tier)...)
 		return scns
 	}
 }
@@ -431,6 +432,108 @@ func c07Async(tier string) []fw.Scenario {
 							return nil
 						}
 						return faultCheck("fault/"+strings.Replace(op.name, ":", "/", 1)+":", faultKinds[kind]+" in "+op.name, kind, run, []h.Ev{h.Nx(0), h.Nx(1), h.Nx(2), h.Nx(1), h.Nx(2)}, r)
+					}}
+				}})
+			}})
+		}
+	}
+	return scns
+}
+
+// c07Concurrent: one goroutine emits values, another one fails (an Error notification, or a panic of the
+// subscribe function) while a value may be in flight: the failure must still reach the subscriber, once.
+func c07Concurrent(tier string) []fw.Scenario {
+	bound := 2
+	if tier == "thorough" {
+		bound = 3
+	}
+	type dest struct {
+		name string
+		mode h.Mode
+		wrap func(ro.Observable[int]) ro.Observable[int]
+	}
+	dests := []dest{
+		{"NewSafeObservable", h.Safe, nil},
+		{"NewEventuallySafeObservable", h.Eventually, nil},
+		{"Serialize", h.Unsafe, func(o ro.Observable[int]) ro.Observable[int] { return ro.Serialize[int]()(o) }},
+		{"Safe|Map", h.Safe, func(o ro.Observable[int]) ro.Observable[int] { return ro.Map(func(v int) int { return v })(o) }},
+		{"EventuallySafe|Scan", h.Eventually, func(o ro.Observable[int]) ro.Observable[int] {
+			return ro.Scan(func(a, v int) int { return v }, 0)(o)
+		}},
+	}
+	var scns []fw.Scenario
+	for _, d := range dests {
+		d := d
+		for _, how := range []string{"error-notification", "subscribe-function-panic"} {
+			how := how
+			scns = append(scns, fw.Scenario{ID: "C07/conc/" + d.name + "/" + how, Group: "concurrent", Run: func(c *fw.Ctx) {
+				c.Explore(fw.Case{Name: how, Bound: bound, Sample: true, Make: func() fw.Instance {
+					rec := h.NewRec("out")
+					rec.YieldIn = true
+					var hooks *h.Hooks
+					var escaped string
+					body := func() {
+						hooks = h.BeginHooks()
+						if how == "error-notification" {
+							o, p := h.Pushed[int](h.NewSrc("src"), d.mode)
+							if d.wrap != nil {
+								o = d.wrap(o)
+							}
+							sub(o, rec)
+							vrt.GoNamed("values", func() { p.Next(1); p.Next(2) })
+							vrt.GoNamed("failure", func() { p.Error(h.ErrCb) })
+							return
+						}
+						// the subscribe function hands its destination to a goroutine that keeps emitting, then panics
+						mk := ro.NewSafeObservable[int]
+						if d.mode == h.Eventually {
+							mk = ro.NewEventuallySafeObservable[int]
+						} else if d.mode == h.Unsafe {
+							mk = ro.NewUnsafeObservable[int]
+						}
+						o := mk(func(dst ro.Observer[int]) ro.Teardown {
+							vrt.GoNamed("values", func() { dst.Next(1); dst.Next(2) })
+							vrt.Yield()
+							panic(h.ErrCb)
+						})
+						if d.wrap != nil {
+							o = d.wrap(o)
+						}
+						guard(&escaped, "Subscribe", func() { sub(o, rec) })
+					}
+					return fw.Instance{Body: body, Outcome: rec.Trace, Nontrivial: func(r *vrt.Result) bool { return r.Switches > 2 }, Check: func(r *vrt.Result) []fw.Violation {
+						var out []fw.Violation
+						sig := "concurrent/" + d.name + "/" + how + ":"
+						evs := rec.Events()
+						nE := 0
+						for _, e := range evs {
+							if e.K == h.E {
+								nE++
+								if !matchesCause(e.Err, 0) {
+									out = append(out, fw.V(sig+"error-does-not-match-cause/value", fmt.Sprintf("trace [%s]: error %q", rec.Trace(), e.Err)))
+								}
+							}
+						}
+						if nE != 1 {
+							cls := "lost"
+							if nE > 1 {
+								cls = "duplicated"
+							}
+							out = append(out, fw.V(sig+"failure-exactly-once/"+cls, fmt.Sprintf("one failure was raised while another goroutine was emitting values; the subscriber received [%s] (dropped-notification hook: %v, unhandled-error hook: %d)", rec.Trace(), hooks.Dropped, len(hooks.Unhandled))))
+						}
+						if g := h.GrammarError(evs); g != "" {
+							out = append(out, fw.V(sig+"grammar-after-fault/"+grammarClass(evs), g))
+						}
+						if escaped != "" {
+							out = append(out, fw.V(sig+"panic-escaped-to-caller/subscribe", escaped))
+						}
+						if r.Crash != nil {
+							out = append(out, fw.V(sig+"goroutine-top-panic/"+r.Crash.Name, r.Crash.Value))
+						}
+						if len(r.Blocked) > 0 {
+							out = append(out, fw.V(sig+"blocked/"+blockedSummary(r), "a thread never returned: "+blockedSummary(r)))
+						}
+						return out
 					}}
 				}})
 			}})
